@@ -2,6 +2,7 @@
 # tools_mutants.sh <dir-with-*.diff> [ID]    development aid: for each patch, apply it to a scratch copy of
 # /repo's HEAD (outside /repo and /verif, removed afterwards), run the repository's own tests, then the quick check(s)
 # of the property named in the patch file name (C03-xyz.diff) or given as ID, and report detected / MISSED.
+# SKIP_TESTS=1 skips the repository's tests (regression runs over changes that were confirmed before).
 set -u
 DIR=${1:?dir}; ONLY=${2:-}
 export GOFLAGS=-mod=mod GOPROXY=off GOSUMDB=off GOTOOLCHAIN=local GOCACHE=/verif/.gocache
@@ -14,7 +15,7 @@ for patch in $DIR/*.diff; do
   rm -rf $S $OUT; mkdir -p $OUT
   git -C /repo worktree add -q --detach $S HEAD || exit 2
   if ! git -C $S apply $patch 2>/tmp/apply.err; then echo "$name: PATCH DOES NOT APPLY: $(head -1 /tmp/apply.err)"; git -C /repo worktree remove --force $S; continue; fi
-  if (cd $S && go build ./... >/dev/null 2>&1 && go test -vet=off -count=1 ./... >/tmp/mut-test.log 2>&1); then tests=pass; else tests=FAIL; fi
+  if [ -n "${SKIP_TESTS:-}" ]; then tests=skipped; elif (cd $S && go build ./... >/dev/null 2>&1 && go test -vet=off -count=1 ./... >/tmp/mut-test.log 2>&1); then tests=pass; else tests=FAIL; fi
   VERIF_REPO=$S VERIF_OUT=$OUT /verif/check $id quick > $OUT/log 2>&1; rc=$?
   nv=$(grep -c '^VIOLATION' $OUT/log)
   if [ $rc -eq 1 ] && [ $nv -gt 0 ]; then verdict=detected; else verdict="MISSED(rc=$rc)"; fi
